@@ -50,6 +50,16 @@ def compile_with(tree, comp, src_path, exe, extra=()):
     return core.run(CLANG + list(extra) + ['-o', exe, src_path], timeout=60)
 
 
+def errsum(msg):
+    """Last diagnostic line (chibicc prints the whole source line first), without temp paths."""
+    ls = [l for l in msg.strip().split('\n') if l.strip()]
+    if not ls:
+        return ''
+    last = ls[-1].strip()
+    last = re.sub(r'^\s*\^\s*', '', last)
+    return re.sub(r'/[^ :]*/', '', last)[:200]
+
+
 _line = re.compile(r'^c(\d+)_ ?(.*)$')
 
 
@@ -73,7 +83,7 @@ def _obs_one(tree, comp, cases, idxs, wd, tag, extra, prelude, run_timeout):
     if r.timeout:
         return None, 'COMPILE-TIMEOUT'
     if r.rc != 0:
-        return None, 'COMPILE-FAIL rc=%s %s' % (r.rc, (r.err or r.out).strip()[:300])
+        return None, 'COMPILE-FAIL rc=%s %s' % (r.rc, errsum(r.err or r.out))
     rr = core.run([exe], timeout=run_timeout, cwd=wd)
     if rr.timeout:
         return None, 'RUN-TIMEOUT'
@@ -155,7 +165,7 @@ def replay(tree, rep, wd, run_timeout=10):
         ex = list(rep.get('extra', [])) + (list(rep.get('chi_extra', [])) if comp == 'chibicc' else [])
         r = compile_with(tree, comp, src, exe, ex)
         if r.rc != 0 or r.timeout:
-            outs[comp] = 'COMPILE-FAIL rc=%s %s' % (r.rc, (r.err or r.out).strip()[:300])
+            outs[comp] = 'COMPILE-FAIL rc=%s %s' % (r.rc, errsum(r.err or r.out))
             continue
         rr = core.run([exe], timeout=run_timeout, cwd=wd)
         outs[comp] = rr.out if (rr.rc == 0 and not rr.timeout) else 'RUN-FAIL rc=%s timeout=%s' % (rr.rc, rr.timeout)
